@@ -146,6 +146,7 @@ func freeRun(r *c18Runner) string {
 	if err != nil {
 		return "load failed: " + err.Error()
 	}
+	d.h.freeRunning = true
 	for i := range r.Ops {
 		op := r.Ops[i]
 		if op.K == "advance" || op.K == "release_all" {
@@ -218,6 +219,7 @@ func raceChildC18(rp *racePlan) {
 					mu.Unlock()
 					continue
 				}
+				d.h.freeRunning = true
 				d.apply(&Op{K: "next"})
 				d.h.Close()
 			}
@@ -311,6 +313,7 @@ func c10FreeRun(p *Plan) string {
 	if err != nil {
 		return "load failed: " + err.Error()
 	}
+	d.h.freeRunning = true
 	defer d.h.Close()
 	k := 0
 	firstArg, haveFirst := 0, false
@@ -349,8 +352,10 @@ func c10FreeRun(p *Plan) string {
 		}
 	}
 	if haveFirst {
-		// the plan was cut by its op budget right after a dispatch: issue that call too, the model counted its invocation
-		d.h.Next(firstArg)
+		// the plan ends in calls that are only expected to answer "waiting" (cut by its op budget, or a loop of
+		// commands without any element): how many dispatches such calls make under the real scheduler is not fixed,
+		// so the number of invocations is not compared for this plan (the deterministic mode compares it exactly)
+		return ""
 	}
 	minvs, _ := decodeExtra[[]MInv](p, "model_invocations")
 	// a handler that runs on its own goroutine may not have started yet: give it time before counting
